@@ -53,6 +53,10 @@ MUTANTS = [
     ("vt.contracts.einsum_eq", "get_einsum_eq", "cotengra/core.py", "            for i, ix in enumerate(unique(itertools.chain(l_inds, r_inds)))\n        }", "            for i, ix in enumerate(unique(itertools.chain(l_inds, r_inds)))\n            if not ix.isascii()\n        }"),
     ("vt.contracts.einsum_eq", "get_einsum_eq", "cotengra/core.py", "enumerate(unique(itertools.chain(l_inds, r_inds)))", "enumerate(unique(l_inds))"),
     ("vt.contracts.einsum_eq", "get_einsum_eq", "cotengra/core.py", "ord(ix): get_symbol(i)", "ord(ix): get_symbol(i % 52)"),
+    ("vt.contracts.tensordot_recipe", "get_tensordot_axes", "cotengra/core.py", "            if j != -1:\n                l_axes.append(i)", "            if j > 0:\n                l_axes.append(i)"),
+    ("vt.contracts.tensordot_recipe", "get_tensordot_axes", "cotengra/core.py", "                l_axes.append(i)\n                r_axes.append(j)", "                l_axes.append(j)\n                r_axes.append(j)"),
+    ("vt.contracts.tensordot_recipe", "get_tensordot_perm", "cotengra/core.py", "return tuple(map(td_inds.find, p_inds))", "return tuple(map(p_inds.find, td_inds))"),
+    ("vt.contracts.tensordot_recipe", "get_tensordot_perm", "cotengra/core.py", 'key=f"{l_inds}{r_inds}".find', 'key=f"{r_inds}{l_inds}".find'),
 ]
 
 _CHILD = r'''
